@@ -281,6 +281,41 @@ static int mode_fmg(int cases)
             printf("ORC case=%d fmg_two_level_diff=%s scale=%s\n", c, hex(d).c_str(), hex(max_abs(expect)).c_str());
         }
     }
+    // C09 through the public interface: the start vector (solve() with maxIterations = 0) of an object that has already run a
+    // full solve must be bit-identical to the start vector of a fresh object — for every extrapolation mode (COMBINED switches the
+    // smoother at run time from the residual history of the EARLIER solve), FMG cycle type and iteration count
+    {
+        int k = 0;
+        for (int extrap : {3, 1, 0, 2})
+            for (int fmg_it : {2, 1, 0})
+                for (int fmg_cycle : {0, 2}) {
+                    if (k++ >= std::max(4, cases / 4)) break;
+                    Opts o = base_opts(rng, 4);
+                    o.set("maxLevels", fmg_cycle == 2 && fmg_it == 1 ? 2 : -1);
+                    o.set("extrapolation", extrap); o.set("FMG", 1); o.set("FMG_iterations", fmg_it); o.set("FMG_cycle", fmg_cycle);
+                    o.set("multigridCycle", 0); o.set("preSmoothingSteps", 1); o.set("postSmoothingSteps", 1); o.set("residualNormType", 0);
+                    o.set("absoluteTolerance", 1e-10); o.set("relativeTolerance", 1e-10); o.set("maxOpenMPThreads", 1);
+                    o.set("maxIterations", 0);
+                    GMGPolar fresh;
+                    o.apply(fresh);
+                    fresh.setup();
+                    fresh.solve();
+                    std::vector<double> sf = vec_of(fresh.solution());
+                    GMGPolar used;
+                    o.set("maxIterations", 60);
+                    o.apply(used);
+                    used.setup();
+                    used.solve();
+                    int its = used.numberOfIterations();
+                    used.maxIterations(0);
+                    used.solve();
+                    std::vector<double> su = vec_of(used.solution());
+                    int ndiff = 0; double dmax = 0;
+                    for (size_t i = 0; i < sf.size(); i++) if (sf[i] != su[i]) { ndiff++; dmax = std::max(dmax, std::abs(sf[i] - su[i])); }
+                    printf("ORC case=used%d fmg_used_object_differs=%d of=%zu extrap=%d fmg_it=%d fmg_cycle=%d earlier_solve_iterations=%d maxdiff=%s opts=[%s]\n", k, ndiff, sf.size(), extrap, fmg_it,
+                           fmg_cycle, its, hex(dmax).c_str(), o.str().c_str());
+                }
+    }
     printf("end\n");
     return 0;
 }
